@@ -16,7 +16,7 @@ from checks import scen
 PID = "C06"
 MODULE = "checks.c06"
 MS, ME, MD = 0.0, 3.0, 1.0
-SCEN = {"A": "sm1", "B": "sm1", "C": "sm2", "D": "sm1"}
+SCEN = {"A": "sm1", "B": "sm1", "C": "sm2", "D": "sm1", "F": "sm2"}
 OPS = ["run", "sess_const", "step_const", "sess_points", "step_points", "reset", "open_step", "register_late",
        "multi_const", "multi_points", "rest_dt", "rest_start", "rest_points"]
 
@@ -54,10 +54,11 @@ class World(object):
         ak = self.const("regA_k")
         cp = self.points("regC")
         self.b.register_scenarios(scenario_manager="sm1", scenarios={"A": {"constants": {"k": ak}}, "B": {}, "D": {}})
-        self.b.register_scenarios(scenario_manager="sm2", scenarios={"C": {"points": {"pts": cp}}})
+        # sm2 has no base settings: C has no constants of its own, F has neither constants nor points
+        self.b.register_scenarios(scenario_manager="sm2", scenarios={"C": {"points": {"pts": cp}}, "F": {}})
         # persistent (constants, points) per scenario
         self.settings = {"A": ({"k": ak, "c": bc}, {"pts2": bp2}), "B": ({"c": bc}, {"pts2": bp2}), "D": ({"c": bc}, {"pts2": bp2}),
-                         "C": ({}, {"pts": cp})}
+                         "C": ({}, {"pts": cp}), "F": ({}, {})}
         self.managers = dict(SCEN)
         self.open = None
         self.in_session = {}         # results other scenarios reported inside a multi-scenario session: {who: (got, want)}
@@ -198,6 +199,11 @@ def run_history(hist, mode, env=None):
     for i, (op, x) in enumerate(hist):
         w.apply(op, x)
         out.append((i, w.observe(), w.expected()))
+    # a second bptk object built afterwards in the same process (another server instance, another notebook cell) starts
+    # from the model's own behaviour: nothing the first one was told may show up in it
+    w2 = World(mode, env)
+    obs2, exp2 = w2.observe(), w2.expected()
+    out.append((len(hist), {"second bptk object, " + k: v for k, v in obs2.items()}, {"second bptk object, " + k: v for k, v in exp2.items()}))
     return out
 
 
@@ -278,6 +284,8 @@ def signature(hist, info):
         return "initial:%s" % who
     if i == -2:
         return "raised:%s" % "/".join(o for o, x in hist)
+    if i >= len(hist):
+        return "leak:%s->second-bptk-object" % (hist[-1][0] if hist else "none")
     op, x = hist[i]
     M = dict(SCEN, E="sm1")
     rel = "self" if who == x else ("base" if who == "base" else ("sibling" if M.get(who) == M.get(x) else "other-manager"))
@@ -346,7 +354,7 @@ def run(tier):
     counts = {"holds": 0, "violated": 0, "unknown": 0}
     samples, bad = [], []
     try:
-        results = harness.pmap(_task, hs, chunksize=8)
+        results = harness.pmap(_task, hs, fresh_process=True)
         for h, (r, err) in zip(hs, results):
             st, info = ("unknown", err) if err else r
             counts[st] += 1
